@@ -10,7 +10,7 @@ from ..env import WORK, VERIF
 TICK = 0.05 / 8
 KINDS = ("sphere", "ellipsoid", "cube", "box", "cylinder", "capsule")
 NAMES = ("A", "B", "C")
-MUTANTS = ("tp", "com", "aabbs", "tree", "treerule", "bary", "alias")
+MUTANTS = ("tp", "com", "aabbs", "tree", "treerule", "bary", "alias", "details")
 
 
 def make_body(kind, T, E):
